@@ -1589,6 +1589,33 @@ def m_array_map(sim, st, c):
     return Array([sim.call_sync(st, c["args"][1], [e]) for e in arr.elems], c["ret_ty"])
 
 
+@pattern(r"^std::ops::RangeInclusive::<Idx>::new$")
+def m_range_incl_new(sim, st, c):
+    return Opaque("RangeIncl", (c["args"][0], c["args"][1]), c["ret_ty"])
+
+
+@pattern(r"^std::ops::(RangeInclusive|Range)::<Idx>::contains(::<.*>)?$")
+def m_range_contains(sim, st, c):
+    r = sim.expand(st, deref_arg(sim, st, c["args"][0]))
+    x = deref_arg(sim, st, c["args"][1])
+    if isinstance(r, Opaque) and r.kind == "RangeIncl":
+        lo, hi, incl = r.data[0], r.data[1], True
+    elif isinstance(r, Struct) and r.ty and is_adt(r.ty, "Range"):
+        lo, hi, incl = r.fields[0], r.fields[1], False
+    else:
+        raise S.Unsupported("contains on %r" % (r,))
+    lo, hi, x = sim.resolve(st, lo), sim.resolve(st, hi), sim.resolve(st, x)
+    ity = c["gargs"][0] if c.get("gargs") else None
+    isf = (ity is not None and S.is_float_ty(ity)) or any(isinstance(v, Const) and isinstance(v.val, float) for v in (lo, hi, x))
+    if isf:
+        if not sim.float_rel(st, lo, x, {"<", "="}):
+            return Const(False, prim("bool"))
+        return Const(sim.float_rel(st, x, hi, {"<", "="} if incl else {"<"}), prim("bool"))
+    if not sim.int_sign(st, int_sub(lo, x), {"<", "="}):
+        return Const(False, prim("bool"))
+    return Const(sim.int_sign(st, int_sub(x, hi), {"<", "="} if incl else {"<"}), prim("bool"))
+
+
 @model("std::array::from_fn")
 def m_array_from_fn(sim, st, c):
     n = const_val(c["ret_ty"]["len"])
